@@ -473,8 +473,10 @@ func (s *Subscription) subscribeRef(v codec.Value) bool {
 func (s *Subscription) collectRefs(rcb *readyCallback) {
 	for _, ref := range s.refs {
 		// Don't wait for already ready references
-		// or references already included in the refMap
-		if ref.sub.IsReady() || rcb.refMap[ref.sub] {
+		// or references already included in the refMap.
+		// A ready reference queueing events, as one of its events awaits a new
+		// reference being loaded, is not to be considered ready.
+		if (ref.sub.IsReady() && ref.sub.queueFlag&queueReasonLoading == 0) || rcb.refMap[ref.sub] {
 			continue
 		}
 
